@@ -102,6 +102,8 @@ def make_machine(sh, found, steps_budget, server_env=None):
             super().__init__()
             self.root = tempfile.mkdtemp(prefix='c15_')
             c04.write_mods(self.root)
+            with open(os.path.join(self.root, 'fx_mod.py'), 'w') as f:
+                f.write('fa = "the copy in the project root"\nonly_in_project_root = 1\n')
             self.env = Environment(env=dict(server_env or {'SUPP_LOG_LEVEL': '100'}, PYTHONPATH=core.REPO))
             self.reply_timeout = REPLY_TIMEOUT
             self.mirror = supp_server.Server(None)
@@ -122,7 +124,12 @@ def make_machine(sh, found, steps_budget, server_env=None):
 
             def work():
                 try:
-                    box['r'] = self.env._call(name, *args, **kwargs)
+                    # through the public client method where there is one (configure, lint, assist, location, eval)
+                    public = getattr(type(self.env), name, None) if name in ('configure', 'lint', 'assist', 'location', 'eval') else None
+                    if public is not None and len(args) >= (2 if name in ('lint',) else 1):
+                        box['r'] = public(self.env, *args, **kwargs)
+                    else:
+                        box['r'] = self.env._call(name, *args, **kwargs)
                 except BaseException as e:      # noqa: handed to the caller below
                     box['e'] = e
             t = threading.Thread(target=work, daemon=True)
@@ -202,12 +209,23 @@ def make_machine(sh, found, steps_budget, server_env=None):
             self.do_configure({'sources': [self.root]})
             self.configured = True
 
-        @rule(extra=st.booleans(), dyn=st.sampled_from([None, None, ['m2'], ['m1', 'm2'], ['json']]))
-        def configure(self, extra, dyn):
-            cfg = {'sources': [self.root] + ([suppview.FIXTURES] if extra else [])}
+        @rule(extra=st.booleans(), dyn=st.sampled_from([None, None, ['m2'], ['m2', 'pk.b'], ['json']]), swap=st.booleans(), relative=st.booleans())
+        def configure(self, extra, dyn, swap, relative):
+            # the same set of roots in either order (fx_mod exists in both: which one wins depends on the order), the project root
+            # also written relative to the working directory (which client, server and mirror share)
+            root = os.path.relpath(self.root) if relative else self.root
+            roots = [root] + ([suppview.FIXTURES] if extra else [])
+            cfg = {'sources': roots[::-1] if swap else roots}
             if dyn is not None:
                 cfg['dyn_modules'] = dyn
             self.do_configure(cfg)
+            self.shadowed('assist')
+
+        @rule(which=st.sampled_from(['assist', 'location']))
+        def shadowed(self, which):
+            """a module that exists in both roots: the answer follows the configured order"""
+            src = 'import fx_mod\nfx_mod.fa'
+            self.both(which, src, (2, 7) if which == 'assist' else (2, 9), os.path.join(self.root, 'buffer.py'))
 
         @rule(mod=st.sampled_from(['json', 'm2']))
         def reconfigure_dyn_roundtrip(self, mod):
@@ -539,10 +557,10 @@ def replay(case):
                     for k in range(len(STATEFUL)):
                         m.eval_same_source_again(k, 3)
                 elif name == 'configure':
-                    m.configure(False, ['m2'])
+                    m.configure(True, ['m2'], True, True)
                     for i, (src, pos) in enumerate(SNIPPETS):
                         m.both('assist', src, pos, os.path.join(m.root, 'buffer.py'))
-                    m.configure(False, None)
+                    m.configure(True, None, False, False)
                 else:
                     m.both(name)
             except AssertionError:
